@@ -140,11 +140,15 @@ CHECKS["C02"] = {
             "[4096, data_cursor); every byte behind the cursor is zero; every index entry points at the record boundary it names; the index area holds exactly the encoded "
             "entries followed by zeros). An acknowledged write stores exactly the framed entry behind the entries already there, leaves them byte for byte, refuses any index "
             "other than the end index, and preserves the invariant; the end-of-log scan (move_to_end / move_to_index_by_count) returns exactly the first n records for EVERY "
-            "chunking of the reads and stops exactly at the first zero length; read_indexs rebuilds exactly the index the area encodes; last index/term are those of the last entry.",
+            "chunking of the reads and stops exactly at the first zero length; read_indexs rebuilds exactly the index the area encodes; last index/term are those of the last entry. "
+            "REOPEN: the real LogInnerManager::init, given the disk image of ANY well-formed state, returns a well-formed state with the same index, cursors and entry count "
+            "(lemma_reopen + the contracts of read_indexs / move_to_end). READ BACK: the real read_records returns exactly the decoded frames of the entries "
+            "[max(start, split_off), min(end, end index)) in order, changes nothing but the file cursor, and leaves the state well formed on EVERY exit (also failed reads).",
     "note": "NOT under contract: RaftLogManager (rollover, LogRange catalogue, split_off, snapshot pointer files, batch replication) and FileStore — their state changes travel "
-            "through Addr::send and actix future chains; LogInnerManager::init and read_records/load_record are not yet under contract in this revision (reopen is covered through "
-            "the scan + index-decode contracts they are built from, not as one theorem). Two handles on one path are modelled as independent byte sequences; protobuf payload "
-            "encoding uninterpreted (a log entry is assumed never to encode to the empty message); get_start_index (closure-based binary search) assumed.",
+            "through Addr::send and actix future chains; load_record (same shape as read_records, dyn loader). A-SAMEFILE: the two handles on one path are modelled as independent "
+            "byte sequences and the disk image is [0,4096) of the index handle ++ [4096,..) of the data handle; A-FULLREAD for init's single 4 KiB read and for FileMessageReader; "
+            "binrw header image and protobuf payload encoding uninterpreted (a log entry is assumed never to encode to the empty message); get_start_index (closure-based binary "
+            "search) assumed; init on a NEW file establishes nothing in this model (the index handle does not see the data handle's writes). Crash points are C04.",
 }
 CHECKS["C03"] = {
     "text": "Proof (Verus, unbounded), single log file scope: strip_log_to(k) on the real LogInnerManager leaves every entry below k byte for byte, sets the end index to k (so the "
